@@ -130,6 +130,8 @@ func stored(f spec.Field, val string, ap ...uint64) spec.Field {
 
 func dv(f spec.Field) spec.Field { f.DV = true; return f }
 
+func shape(f spec.Field, enc string) spec.Field { f.Shape = []byte(enc); return f }
+
 // TextMenu is the segment menu of C05/C06: every data-dependent branch of the
 // merge has a trigger (see DESIGN.md 4 C05/C06).
 func TextMenu() []spec.Batch {
@@ -212,6 +214,7 @@ func TextMenu() []spec.Batch {
 		}},
 		{ID: "z2", Fields: []spec.Field{
 			dv(fld("a", 1, tok("w", 0))),
+			shape(dv(fld("b", 0)), "SHAPE-z2"), // geo-shape field without tokens: the encoded shape is its only doc value
 		}},
 	}}
 	return []spec.Batch{
